@@ -59,6 +59,17 @@ impl<'a> NameRef<'a> {
             unsafe { std::slice::from_raw_parts(self.lit, self.lit_len) }
         }
     }
+    /// the name without its namespace prefix (table names: offset registered with the table)
+    #[inline]
+    fn local_bytes(&self) -> &'a [u8] {
+        if self.is_lit == 0 {
+            let b = tape::name_bytes(self.id);
+            &b[tape::local_off(self.id)..]
+        } else {
+            // literal names (writer side, harness-made tags) never carry a prefix in this model
+            self.bytes()
+        }
+    }
     fn owned(self) -> NameRef<'static> {
         if self.is_lit == 0 {
             NameRef::Id(self.id)
@@ -133,7 +144,7 @@ impl<'a> BytesStart<'a> {
     }
 
     pub fn local_name(&self) -> LocalName<'_> {
-        LocalName(self.name.bytes())
+        LocalName(self.name.local_bytes())
     }
 
     pub fn attributes(&self) -> Attributes<'_> {
@@ -192,7 +203,7 @@ impl<'a> BytesEnd<'a> {
         QName(self.name.bytes())
     }
     pub fn local_name(&self) -> LocalName<'_> {
-        LocalName(self.name.bytes())
+        LocalName(self.name.local_bytes())
     }
 }
 
